@@ -102,7 +102,7 @@ func TestMetrics(t *testing.T) {
 		m := model{}
 		var conns []*connState
 		var hist []string
-		failures, retries, strays := 0, 0, 0
+		failures, retries, strays, doneCloses := 0, 0, 0, 0
 		creds := hx.Creds{User: "admin", Password: []byte("pw"), Priv: 4, Suite: ref.Suite{Auth: 1, Integ: 1, Conf: 1}}
 		defer func() {
 			for _, c := range conns {
@@ -292,6 +292,15 @@ func TestMetrics(t *testing.T) {
 				}
 				s := rapid.SampledFrom(open).Draw(t, "session")
 				failing := rapid.Bool().Draw(t, "failing")
+				// a close whose context is already cancelled or past its deadline (e.g. a
+				// deferred Close reusing the context an earlier call exhausted) still
+				// counts as a close: an error is returned and the session is gone
+				doneCtx := rapid.SampledFrom([]string{"", "", "cancelled", "deadline-passed"}).Draw(t, "doneContext")
+				if c.udp && doneCtx == "cancelled" {
+					// the UDP transport only observes deadlines: a cancelled context
+					// without one still completes the exchange, which is an ordinary close
+					doneCtx = "deadline-passed"
+				}
 				script := []hx.Outcome{hx.Final}
 				if failing {
 					script = []hx.Outcome{hx.FinalCC}
@@ -304,24 +313,44 @@ func TestMetrics(t *testing.T) {
 					c.srv.Unlock()
 				}
 				ctx, cancel := context.WithTimeout(context.Background(), 5*time.Second)
+				switch doneCtx {
+				case "cancelled":
+					cancel()
+				case "deadline-passed":
+					cancel()
+					ctx, cancel = context.WithDeadline(context.Background(), time.Now().Add(-50*time.Millisecond))
+				}
+				before := c.sends()
 				err := s.s.Close(ctx)
 				cancel()
 				s.closed = true
 				m.add("bmc_sessions_open", "", -1)
 				m.add("bmc_command_attempts_total", "command=Close Session", 1)
-				if failing {
+				switch {
+				case doneCtx != "":
+					if err == nil {
+						t.Fatalf("Close with a context that is already done (%s) returned nil", doneCtx)
+					}
+					if n := c.sends() - before; n != 0 {
+						t.Fatalf("Close with a context that is already done (%s) transmitted %d datagrams", doneCtx, n)
+					}
+					m.add("bmc_command_failures_total", "command=Close Session", 1)
+					failures++
+					doneCloses++
+				case failing:
 					if err == nil {
 						t.Fatalf("Close with completion code %#x returned nil", hx.FinalCCValue)
 					}
 					m.add("bmc_command_responses_total", codeLabel(hx.FinalCCValue), 1)
 					failures++
-				} else {
+				default:
 					if err != nil {
 						t.Fatalf("Close failed: %v", err)
 					}
 					m.add("bmc_command_responses_total", codeLabel(0), 1)
 				}
-				hist = append(hist, fmt.Sprintf("closeSession(failing=%v)", failing))
+				failing = failing && doneCtx == ""
+				hist = append(hist, fmt.Sprintf("closeSession(failing=%v, context=%q)", failing, doneCtx))
 			},
 			"command": func(t *rapid.T) {
 				c := pickConn(t, true)
@@ -456,6 +485,9 @@ func TestMetrics(t *testing.T) {
 		if strays > 0 {
 			ev.Label("history:stray-reply-not-counted")
 		}
+		if doneCloses > 0 {
+			ev.Label("history:close-with-done-context")
+		}
 		ev.Sample(map[string]any{"history": hist, "failures": failures, "retries": retries})
 	})
 }
@@ -466,5 +498,5 @@ func installCaps(b *simbmc.BMC) {
 }
 
 func TestCoverage(t *testing.T) {
-	ev.RequireLabels(t, 1, "history:failure+retry", "history:with-udp", "history:stray-reply-not-counted")
+	ev.RequireLabels(t, 1, "history:failure+retry", "history:with-udp", "history:stray-reply-not-counted", "history:close-with-done-context")
 }
